@@ -240,7 +240,7 @@ Theorem C08_drift_offsets_same_for_every_bunch_generated :
     0 <= y < ny ->
     let multi := gen_drift_ctor ftan fsin fasin nb nx ny A0 A1 slip E0 in
     let single := gen_drift_ctor ftan fsin fasin 1 nx ny A0 A1 slip E0 in
-    rs_offset multi y = drift_off slip (ax_scale A1 "ElectronVolt") E0 (ax_delta A0) (ax_at A1 y) /\
+    rs_offset multi y = drift_off slip (ax_scale A1 U_ElectronVolt) E0 (ax_delta A0) (ax_at A1 y) /\
     rs_offset multi y = rs_offset single y /\ rs_built multi y = rs_offset multi y /\
     (forall i, ny <= i -> rs_offset multi i = f0).
 Proof. exact drift_offsets_all_bunches_generated. Qed.
